@@ -722,6 +722,8 @@ func compileGuarded(p *Prog, front string, dag bool, cb bool, rec *recorder) (r 
 // by four callers at once). Every call must answer what the paradigms answered one after the other: the
 // same value when they succeeded, a failure (no panic, no hang) when they failed. Only used on cases whose
 // sequential calls agreed, outside the deliberate out-of-domain constructions.
+const concRounds = 6
+
 func concFirstCalls(c *Case, run inRun) string {
 	r, err := compileGuarded(c.Prog, c.Front, c.DAG, c.CB, &recorder{})
 	if err != nil {
@@ -729,30 +731,42 @@ func concFirstCalls(c *Case, run inRun) string {
 		// not of the four paradigms of a compiled object: nothing to compare
 		return ""
 	}
-	var outs [4]POut
-	start := make(chan struct{})
-	var wg sync.WaitGroup
-	for par := 0; par < 4; par++ {
-		wg.Add(1)
-		go func(par int) {
-			defer wg.Done()
-			<-start
-			outs[par] = r.call(par, run.x, run.chunks)
-		}(par)
-	}
-	close(start)
-	wg.Wait()
-	for par := 0; par < 4; par++ {
-		o := outs[par]
-		switch {
-		case o.Class == "panic" || o.Class == "hang":
-			return fmt.Sprintf("four paradigms called at the same time on a fresh compiled object: %s: %s %s", parName[par], o.Class, o.Msg)
-		case run.allOK && !o.ok():
-			return fmt.Sprintf("four paradigms called at the same time on a fresh compiled object: %s fails (%s %s), called one after the other all four succeed", parName[par], o.Class, o.Msg)
-		case run.allOK && !vEqual(o.Val, run.obs.P[0].Val):
-			return fmt.Sprintf("four paradigms called at the same time on a fresh compiled object: %s delivers %s, called one after the other all four deliver %s", parName[par], js(o.Val), js(run.obs.P[0].Val))
-		case !run.allOK && o.ok():
-			return fmt.Sprintf("four paradigms called at the same time on a fresh compiled object: %s succeeds (%s), called one after the other all four fail", parName[par], js(o.Val))
+	// round 0: one call per paradigm, the first calls on the fresh object; rounds 1..concRounds-1: two calls per
+	// paradigm at the same time on the same object (plain re-entrancy)
+	for round := 0; round < concRounds; round++ {
+		n := 4
+		if round > 0 {
+			n = 8
+		}
+		outs := make([]POut, n)
+		start := make(chan struct{})
+		var wg sync.WaitGroup
+		for k := 0; k < n; k++ {
+			wg.Add(1)
+			go func(k int) {
+				defer wg.Done()
+				<-start
+				outs[k] = r.call(k%4, run.x, run.chunks)
+			}(k)
+		}
+		close(start)
+		wg.Wait()
+		what := "four paradigms called at the same time on a fresh compiled object"
+		if round > 0 {
+			what = "eight calls (two per paradigm) at the same time on one compiled object"
+		}
+		for k := 0; k < n; k++ {
+			o, par := outs[k], k%4
+			switch {
+			case o.Class == "panic" || o.Class == "hang":
+				return fmt.Sprintf("%s: %s: %s %s", what, parName[par], o.Class, o.Msg)
+			case run.allOK && !o.ok():
+				return fmt.Sprintf("%s: %s fails (%s %s), called one after the other all four succeed", what, parName[par], o.Class, o.Msg)
+			case run.allOK && !vEqual(o.Val, run.obs.P[0].Val):
+				return fmt.Sprintf("%s: %s delivers %s, called one after the other all four deliver %s", what, parName[par], js(o.Val), js(run.obs.P[0].Val))
+			case !run.allOK && o.ok():
+				return fmt.Sprintf("%s: %s succeeds (%s), called one after the other all four fail", what, parName[par], js(o.Val))
+			}
 		}
 	}
 	return ""
